@@ -107,6 +107,37 @@ void harness(void) {
 
 
 # =================================================================================================== ItemStash
+    # ---- U5: the setters, relative to the contract of get_element (which allocates) ---------------------------------------------------
+    GETEL = '''
+unsigned char* ghost_byte;   /* ghost: the byte of the set that holds the bit of id */
+/* IdSetDense::get_element(id): makes sure the chunk of id exists (resizing the chunk vector, allocating a zeroed chunk) and returns a reference to the
+   byte holding the bit of id. Assumed contract: it returns that byte and changes nothing the caller can see (the abstract set is unchanged). */
+unsigned char* IdSetDense_get_element(struct IdSetDense* self, T id)
+__CPROVER_requires(__CPROVER_rw_ok(self, sizeof(*self)))
+__CPROVER_assigns()
+__CPROVER_ensures(__CPROVER_pointer_equals(__CPROVER_return_value, ghost_byte))
+;
+'''
+    SETPOST = [(r'(?<![\w_])bitmask\(', 'IdSetDense_bitmask(')]
+    GSIB = {'get_element': 'IdSetDense_get_element'}
+    U_cas = Unit(IDS, 'check_and_set', cls='IdSetDense', post=SETPOST, stub_siblings=GSIB)
+    U_unset = Unit(IDS, 'unset', cls='IdSetDense', post=SETPOST, stub_siblings=GSIB)
+    SET_PRE = ('pre:the byte of the id; the element count is consistent with it', 'requires',
+               '__CPROVER_is_fresh(self, sizeof(*self)) && __CPROVER_is_fresh(ghost_byte, 1) && ((*ghost_byte & BM(id)) ? self->m_size >= 1 : self->m_size < (T)-1)')
+    SET_FRAME = ('frame:only the byte of the id and the element count are written - every other byte, chunk and id is untouched', 'assigns', '*ghost_byte, self->m_size')
+    for name, u, isset in (('check_and_set', U_cas, True), ('unset', U_unset, False)):
+        PIPELINES.append(Pipeline('U5_%s_%s' % (name, tag), units=[U_bm, u], prelude=(lambda T: lambda repo: prelude_ids(T)(repo) + GETEL)(T), contracts={'IdSetDense_' + name: [
+            SET_PRE,
+            ('post:the bit of the id is %s afterwards and the seven other ids sharing the byte are what they were' % ('set' if isset else 'clear'), 'ensures',
+             '((*ghost_byte & BM(id)) %s 0) && (*ghost_byte & ~BM(id) & 0xff) == (__CPROVER_old(*ghost_byte) & ~BM(id) & 0xff)' % ('!=' if isset else '==')),
+            ('post:the element count changes exactly when membership changes' + (', and the result says whether the id was new' if isset else ''), 'ensures',
+             ('self->m_size == __CPROVER_old(self->m_size) + ((__CPROVER_old(*ghost_byte) & BM(id)) ? 0 : 1) && __CPROVER_return_value == ((__CPROVER_old(*ghost_byte) & BM(id)) == 0)') if isset else
+             'self->m_size == __CPROVER_old(self->m_size) - ((__CPROVER_old(*ghost_byte) & BM(id)) ? 1 : 0)'),
+            SET_FRAME]},
+            replace=['IdSetDense_get_element'], ret_ref_stubs=['IdSetDense_get_element'], enforce='IdSetDense_' + name,
+            harness='void harness(void) { struct IdSetDense* s; T id; IdSetDense_%s(s, id); __CPROVER_assert(0, "canary"); }' % name, noflags=['--conversion-check'],
+            replay=('c15_idset', lambda cex, o: ['search']), note='relative to get_element returning the byte of the id; together with U1 (the id -> bit map is injective) this is the abstract set update'))
+
 ITEM = 'include/osmium/memory/item.hpp'
 
 
@@ -213,10 +244,11 @@ ASSUMPTIONS = ['id set storage of at most 2^30 bytes per set in the model (objec
 NOT_DECIDED = ['relation maps (std::sort/equal_range based)', 'space reclamation by garbage collection (Buffer::purge_removed)', 'IdSetSmall']
 LEVEL_TEXT = ('Proof for the dense id set (32- and 64-bit ids, every chunk size 2^1..2^22 at once, chunk_bits symbolic): the id -> (chunk, byte, bit) map is injective and '
               'invertible; get() equals the abstract membership; last() covers every id whose chunk exists; the iterator step next() - unbounded loop contract over '
-              'arbitrary bitmap contents - never skips a member, stops only on a member or at the end, and terminates. Item stash: add_item returns a handle whose '
+              'arbitrary bitmap contents - never skips a member, stops only on a member or at the end, and terminates; check_and_set/unset, relative to get_element returning the byte of the id, set/clear exactly the bit of the id, '
+              'leave the seven neighbours in the byte and everything else untouched (frame), keep the element count and report whether the id was new. Item stash: add_item returns a handle whose '
               'index entry is the offset at which the item was stored whether or not the automatic garbage collection runs inside the call; remove_item invalidates '
               'exactly that index entry (sentinel) and marks the item; the compaction fix-up rewrites exactly the first matching entry and leaves all others alone '
               '(unbounded loop contract).')
 LEVEL_NOTE = ('Trusted: CBMC, extraction rules; the storage models (vector of chunk pointers as presence flags + flat array; std::vector<size_t> as array+size with an '
-              'assumed push_back contract); Buffer operations used by ItemStash are assumed contracts here (Buffer itself: C04). Not decided: set/unset paths that '
-              'allocate chunks (get_element), relation maps (std::sort/equal_range), whole-history equivalence, reclamation of space by purge_removed.')
+              'assumed push_back contract); Buffer operations used by ItemStash are assumed contracts here (Buffer itself: C04). Not decided: the body of get_element '
+              '(chunk vector resize and allocation; assumed contract), relation maps (std::sort/equal_range), whole-history equivalence, reclamation of space by purge_removed.')
